@@ -325,6 +325,12 @@ def tie(ctx, res, extra=(), label='main_run_tie'):
         if m[0] == 'oracle-conflict':
             stats['inconclusive'] += 1
             continue
+        if m[0] == 'err':
+            # BadOracle: the literal orders / shape groups are read from the bash script of the binary
+            what = ('the binary exits %s without a bash script where Driver.compile accepts the grammar' % run['rc'] if run['rc'] != 0
+                    else 'the oracles read from the binary\'s bash script are rejected by the model')
+            res.violations.append(report.Violation('tie broken (Main.run vs the complgen command): ' + what, replay, found_input=False))
+            continue
         if m[0] != 'ok':
             res.violations.append(report.Violation('Main.run answers %s (its totality is claimed by Props/C06c.v)' % o[:160],
                                                    replay, found_input=False))
